@@ -1016,3 +1016,77 @@ def _op(ev, f):
     if k not in _OPS:
         _OPS[k] = ev.new_object(f.get("cls") or "op")
     return _OPS[k]
+
+
+def p8(prog):
+    """a copy of a value is the value: every clone () override is interpreted on an object of its class whose fields hold distinct
+    marker values (the position among them) and the copy must carry every field it is constructed from unchanged - in particular the
+    position, which every stack copy (a `,` branch, `let`, a closure step) would otherwise reset or mix up with a neighbouring integer
+    field.  Where a class cannot be interpreted with marker fields the rule falls back to the dataflow fact that the copy is built from
+    `*this` or from get_pos ()."""
+    from cxxobj import CxxEvaluator, Obj, Sym, Vec, OutOfBounds
+    from absint import Thrown
+    inst, findings = [], []
+    clones = [f for f in prog.funcs.values() if f["n"] == "clone" and f.get("body") is not None and f.get("cls") and not f.get("params")
+              and prog.rel(f.get("file", "")).startswith("libzwerg/")]
+    if len(clones) < 10:
+        raise Broken("only %d clone () overrides found (floor 10)" % len(clones))
+
+    def fields_of(cls, seen=None):
+        seen = seen or set()
+        if cls in seen or cls not in prog.records:
+            return []
+        seen.add(cls)
+        out = []
+        for b in prog.records[cls].get("bases", []):
+            out += fields_of(b if isinstance(b, str) else b.get("t", ""), seen)
+        return out + [(fl["n"], fl.get("t", "")) for fl in prog.records[cls].get("fields", [])]
+    for f in sorted(clones, key=lambda f: f["fid"]):
+        cls = f["cls"]
+        key = "P8:%s::clone" % cls
+        flds = fields_of(cls)
+        ev = CxxEvaluator({}, {}, prog=prog)
+        o = Obj(cls)
+        marks = {}
+        for i, (n, t) in enumerate(flds):
+            tt = t.replace("const ", "").strip()
+            if n == "m_pos":
+                v = 5
+            elif tt in ("unsigned int", "int", "unsigned long", "long", "size_t", "unsigned long long", "Dwarf_Off", "Dwarf_Addr", "Dwarf_Word", "uint64_t", "bool"):
+                v = 100 + i if tt != "bool" else True
+            elif tt.startswith("std::vector<") or tt.startswith("std::shared_ptr<std::vector<"):
+                v = None       # containers are compared by the class's own tests (Q4c); not marked here
+            else:
+                v = Sym.of("field:" + n)
+            if v is not None:
+                marks[n] = v
+                setattr(o, n, v)
+        how, bad = "interpreted", None
+        try:
+            ev.steps = 0
+            r = ev.call(f, o, [])
+            if r is None or r is o:
+                bad = "clone () hands back %s" % ("nothing" if r is None else "the object itself")
+            else:
+                for n, v in marks.items():
+                    if not isinstance(v, (int, bool)):
+                        continue        # members of class type are copied by their own constructors; the integers are what gets mixed up
+                    g = getattr(r, n, None)
+                    same = g == v
+                    if not same and bad is None and hasattr(r, n):
+                        bad = "the copy's %s is %r; the original's is %r" % (n, g, v)
+                if not hasattr(r, "m_pos") and bad is None:
+                    how = "dataflow"
+        except (Broken, OutOfBounds, Thrown, AttributeError, TypeError):
+            how = "dataflow"
+        if how == "dataflow":
+            src = [y for y in walk_nolambda(f["body"])]
+            uses_this = any(y.get("k") == "un" and y.get("op") == "*" and isinstance(y.get("e"), dict) and y["e"].get("k") == "this" for y in src)
+            uses_pos = any((y.get("k") == "call" and y.get("fn") == "get_pos") or (y.get("k") == "mem" and y.get("n") == "m_pos") for y in src)
+            if not (uses_this or uses_pos):
+                bad = "clone () builds the copy neither from *this nor from get_pos (): the copy loses its position"
+        inst.append((key, {"decided_by": how, "fields_marked": len(marks)}))
+        if bad:
+            findings.append({"key": key, "where": "libzwerg/" + f["l"],
+                             "msg": "%s: %s - every stack copy (an ALT branch, `let`, a closure step) would change the value" % (key[3:], bad), "detail": None})
+    return inst, findings
